@@ -37,7 +37,7 @@ C12Case gen_c12(const std::string& part, const std::string& tier, uint64_t seed,
 int64_t c12_part_size(const std::string& part, const std::string& tier);  // for enumerated parts
 Outcome exec_c12(const C12Case& c, bool keep_log, Stats* stats);
 
-std::string apply_faults(const std::string& base, const std::vector<ByteFault>& faults, int* noops);
+std::string apply_faults(const std::string& base, const std::vector<ByteFault>& faults, int* noops, std::vector<bool>* applied = nullptr);
 TzData synthx_zone(uint64_t seed);   // self-consistent but out-of-spec images
 
 }  // namespace sim
